@@ -942,8 +942,8 @@ func genSpec(seed uint64, worker, run int, tier string) (*Spec, *Rng, faultSet) 
 // to N simultaneous callers only).
 func (g *gen) crowd(s *Spec, hot []int, fs faultSet) {
 	r := g.r
-	nt := r.Range(7, verifsim.MaxTasks)
-	if v, ok := g.nearConstant(2, 15); ok && r.Chance(0.4) {
+	nt := r.Range(7, 16)
+	if v, ok := g.nearConstant(2, verifsim.MaxTasks-2); ok && r.Chance(0.4) {
 		nt = v + 1 // one more caller than some small constant of the library
 	}
 	if nt > verifsim.MaxTasks {
